@@ -128,6 +128,9 @@ impl Property for C20 {
                     crate::producer::plant_ext_inst(rng, &mut stream);
                 }
                 if rng.chance(1, 4) {
+                    crate::producer::plant_late_type(rng, &mut stream);
+                }
+                if rng.chance(1, 4) {
                     stream.insts.push(MInst {
                         opcode: s.op("Constant"),
                         rtype: Some(rng.range(1, 300) as u32),
@@ -136,7 +139,25 @@ impl Property for C20 {
                     });
                 }
                 let n = if rng.chance(1, 2) { 0 } else { rng.range(1, 3) as usize };
-                let faults = if n == 0 { vec![] } else { faults::gen_faults(rng, &stream, n, faults::ALL_FAULTS) };
+                let mut faults = if n == 0 { vec![] } else { faults::gen_faults(rng, &stream, n, faults::ALL_FAULTS) };
+                if rng.chance(1, 10) {
+                    // an error message hot spot: a string with a line feed whose LATER byte is invalid UTF-8
+                    let text = *rng.pick(&["ab\ncd", "\nxyz", "line1\nline2 and more", "a\n\nb"]);
+                    let at = rng.usize_below(stream.insts.len() + 1).min(stream.insts.iter().position(|i| i.is("Function")).unwrap_or(stream.insts.len()));
+                    stream.insts.insert(at, MInst { opcode: s.op("String"), rtype: None, rid: Some(stream.header.bound + 20), ops: vec![MOp::S(text.to_string())] });
+                    let lf = text.find('\n').unwrap();
+                    let pos = lf + 1 + rng.usize_below(text.len() - lf - 1);
+                    // (instruction indices of earlier faults shift by one; they stay executable, just land elsewhere)
+                    faults.insert(0, Fault::StrByte(at, pos, *rng.pick(&[0xFFu8, 0xC0, 0xF8])));
+                }
+                if rng.chance(1, 12) {
+                    // a big-endian copy of the file, often with a ragged tail
+                    faults.push(Fault::ByteSwapAll);
+                    if rng.chance(2, 3) {
+                        let len = stream.encode().0.len() * 4;
+                        faults.push(Fault::Trunc(len.saturating_sub(rng.range(1, 7) as usize)));
+                    }
+                }
                 (Source::Stream(stream), faults)
             }
         };
@@ -249,6 +270,9 @@ impl Property for C20 {
             mk("stderr-panic", pi.locus(), format!("exit {:?}{}; stderr: {}", out.code, inj, err))
         } else if out.code != Some(0) {
             mk("exit-status", format!("exit={:?}", out.code), format!("rspirv-dis exited with {:?}{}; stderr: {}", out.code, inj, String::from_utf8_lossy(&out.stderr)))
+        } else if !loaded && expected.trim_end_matches('\n').contains('\n') {
+            // the library's own message is not one line (the binary prints the same text, so compare-only would miss it)
+            mk("error-one-line", "library-message".into(), format!("the loading error is rendered on more than one line: {:?}", expected.chars().take(300).collect::<String>()))
         } else if out.stdout != expected.as_bytes() {
             let got = String::from_utf8_lossy(&out.stdout).to_string();
             let kind = if got.trim_end_matches('\n') == expected.trim_end_matches('\n') { "trailing-newline" } else if loaded { "disassembly" } else { "error-message" };
